@@ -323,4 +323,36 @@ theorem seg_check_exact (r : Rect) (p q : P) :
     segHitsOpenRect r p q = true ↔ ∃ t : Rat, 0 ≤ t ∧ t ≤ 1 ∧ StrictlyInside r (lerp p q t) :=
   AdaptaVerif.Lemmas.RouteRect.segHitsOpenRect_iff r p q
 
+/-! ### non-vacuity (fAudit): joint instances of the hypotheses of the theorems above -/
+
+-- non-vacuity of `queue_refines_scene_from`: a reachable state with three actions queued, legal continuation
+example := queue_refines_scene_from (run init (demoOps.take 16)) (queue_invariant _ (by decide)) (demoOps.drop 16) (by decide +kernel)
+example : (run init (demoOps.take 16)).queue.length = 3 := by decide +kernel
+
+-- non-vacuity of `sort_irrelevant_for_scene`: that state, the queue traversed backwards
+example := sort_irrelevant_for_scene (run init (demoOps.take 16)) (queue_invariant _ (by decide))
+  (run init (demoOps.take 16)).queue.reverse (List.reverse_perm _)
+
+-- non-vacuity of `immediate_mode`: transactions off, nothing queued, a legal Add
+example := immediate_mode (run init [.setTransactionUse false]) (.addObst false 1 [⟨0, 0⟩, ⟨4, 0⟩, ⟨4, 4⟩, ⟨0, 4⟩])
+  (queue_invariant _ (by decide)) (by decide) (by decide) (by decide)
+
+-- non-vacuity of `immediate_mode_run` (both hypotheses)
+example := immediate_mode_run demoOps (by decide) (by decide)
+
+-- non-vacuity of `user_change_overwrites`: an update of the other end is queued
+example := user_change_overwrites [(End.tar, CEnd.pin 2 1)] { id := 3 } .src (.pt ⟨1, 2⟩) (by simp)
+
+-- non-vacuity of `pin_moves_preserve_view`, `pin_refresh_complete`, `pin_refresh_any_order` (all hypotheses jointly) on
+-- the state after `pinOpsA` (a move of shape 1 and a re-target of connector 3 queued)
+example := pin_moves_preserve_view (run init pinOpsA) (queue_invariant _ (by decide +kernel))
+example := pin_refresh_complete (run init pinOpsA) { kind := .move, id := 1, geom := [⟨0, 10⟩, ⟨4, 10⟩, ⟨4, 14⟩, ⟨0, 14⟩] }
+  (List.mem_of_getElem? (i := 0) (by decide +kernel)) rfl (4, .tar, .pin 1 1) (by decide +kernel)
+example := pin_refresh_any_order (run init pinOpsA) (queue_invariant _ (by decide +kernel))
+  [(4, .tar, .pin 1 1), (3, .src, .pin 1 1), (4, .tar, .pin 1 1)] (by unfold EndsOfScene; decide +kernel) (run init pinOpsA).queue
+
+-- non-vacuity of `route_check_sound`: a route around the box [0,2]×[0,2] is accepted, one through it is not
+example : routeValidRect [⟨0, 0, 2, 2⟩] ⟨-1, 1⟩ ⟨3, 1⟩ [⟨-1, 1⟩, ⟨-1, 3⟩, ⟨3, 3⟩, ⟨3, 1⟩] = true ∧
+    routeValidRect [⟨0, 0, 2, 2⟩] ⟨-1, 1⟩ ⟨3, 1⟩ [⟨-1, 1⟩, ⟨3, 1⟩] = false := by decide +kernel
+
 end AdaptaVerif.Props.C06
